@@ -12,7 +12,7 @@ CLAIMED = {
          'Decides from the source that no source of run-to-run variation exists (indeterminate fields, hash/address-ordered iteration, ambient clock/random/env/thread APIs, unreset globals). Necessary conditions of deterministic replay; trace equality itself is not decided.', '4/C01'),
  'C02': ('static: writer/caller tables of the clock, dominating-guard proof of non-negative advance, CFG must-precede in simulation::run',
          'Decides who may write, advance and reset the virtual clock, that every advance is by a difference proven non-negative by a dominating guard, that run() polls before every advance and advances to the front of the timer queue, and who writes the stop flag. FIFO of posted handlers (boost) and no-event-lost-after-restart are not decided.', '4/C02'),
- 'C03': ('static: timer typestate (queued <=> !m_expired) as CFG must-precede/must-follow rules, writer tables, tie-order idiom check, handler ownership flow',
+ 'C03': ('static: timer typestate (queued <=> !m_expired) as CFG must-precede/must-follow rules (helper-aware), writer tables, tie-order idiom check, handler ownership flow, lock discipline of the timer-queue mutex',
          'Decides the typestate pairing of queue membership and m_expired on every path, that the sort key is never written while queued, upper_bound tie order, cancel/re-arm/destructor abort reachability and return values per path, and that fire() owns, clears and posts the handler. Firing instants are not decided.', '4/C03'),
  'C04': ('static: handler-value flow analysis (own/borrow/copy/dispatch), forward dataflow "slot known empty" with callee summaries on the CFG, call-graph reachability from initiating functions',
          'Decides that every completion handler is owned by a slot or by a closure consumed by post()/a timer, never invoked/dispatched inline on a path from an initiating call, never borrowed or copied, never overwritten or cleared while possibly set, that cancel/close/destructor leave every slot empty with operation_aborted bound, and that posted closures do not capture this. Exactly-once across arbitrary interleavings of several operations is not decided.', '4/C04'),
@@ -30,8 +30,8 @@ CLAIMED = {
          'Decides that the byte account is balanced with one measure, that the drop guard is exactly the stated predicate with that measure, which packet types are droppable, that every path through each sink handles the packet exactly once and keeps the callback unless dropping, and that hops write only hops/from.address/drop_fun. Run-time values of the predicate are not decided.', '4/C10'),
  'C11': ('static: overload-pair enumeration and delegation check, per-field reset dataflow on close/destructor, closed writer/user tables of the registries, guard-dominance (found && owner) on erase/re-point, reachability of the insert from error assignments',
          'Decides that close() really closes (all 21 overload pairs agree), that close/destructor/re-open release binding and forwarder on every path, that move re-points and neutralises the source, that the TCP and UDP registries have disjoint closed user sets, that erase/re-point need found && owner, that look-ups are checked against end(), and that no error path reaches the insert. Registry contents over histories and the ephemeral-port scan are not decided.', '4/C11'),
- 'C12': ('static: escape analysis of raw endpoint pointers into long-lived holders (packet callbacks, posted/timer closures, forwarder), guard-dominance on every m_channel dereference with interprocedural caller check, field-coverage of move constructors, path rules on the catch-all and timer removal',
-         'Decides that each protection mechanism is applied wherever it is needed: the drop callback reaches its socket only through the resettable forwarder, which close/destructor detach and move re-points; timer completions return on abort before touching members; every m_channel dereference is guarded, in a guarded helper, or tabled with its invariant; move constructors transfer every field; the catch-all works from copies; timer removal searches the whole equal-expiry range. Absence of all UB on all schedules is not decided.', '4/C12'),
+ 'C12': ('static: escape analysis of raw endpoint pointers into long-lived holders (packet callbacks, posted/timer closures, forwarder), guard-dominance on every m_channel dereference with interprocedural caller check, field-coverage of move constructors, path rules on the catch-all and timer removal, ownership of closure captures (no raw pointer / reference to socket-lifetime objects in packet callbacks or posted closures), lock discipline (no call under a scoped guard reaches a function locking the same std::mutex)',
+         'Decides that each protection mechanism is applied wherever it is needed: the drop callback reaches its socket only through the resettable forwarder, which close/destructor detach and move re-points; timer completions return on abort before touching members; every m_channel dereference is guarded, in a guarded helper, or tabled with its invariant; move constructors transfer every field; closures that outlive the call own what they capture; no call made under the timer-queue guard re-locks it (the catch-all cannot deadlock); the catch-all works from copies; timer removal searches the whole equal-expiry range. Absence of all UB on all schedules is not decided.', '4/C12'),
  'C13': ('static: effect-set computation of nat::incoming_packet over everything reachable from the packet, exact guard-set check on the visible-endpoint rewrite, exactly-once path rule, writer tables of the endpoint views',
          'Decides that the NAT writes exactly from.address and visible_ep[0].address (with the address fixed at construction), that the latter happens for exactly the initiator\'s SYN, that every path forwards once, and that the user-visible endpoint views read the fields the NAT writes while the true endpoints have no writer. Run-time payload/ordering/timing are decided only as "no writer exists".', '4/C13'),
  'C14': ('static: CFG reachability between the literal branch and the configuration call, mutation-kind table on the lookup queue, handler-flow rule (every handler through the queue), must-follow re-arm rule, origin rule on the start time',
